@@ -157,7 +157,7 @@ def corruption_test(run, prop, src_dir, corrupt_fn, n=8):
 # ---------------------------------------------------------------------------------------------
 FAM_STRIDE = {  # family: (quick stride, thorough stride); stride 1 = exhaustive
     "EP": (331, 6), "EPEDGE": (1, 1), "ONLYEP": (7, 1), "PIN": (53, 1), "CASTLE": (29, 1),
-    "PROMO": (2, 1), "MAT": (61, 2), "CHK": (1999, 37),
+    "PROMO": (2, 1), "MAT": (61, 2), "CHK": (1999, 37), "AMBIG": (997, 11), "RAW": (1, 1),
 }
 FAMS_FOR = {
     "C01": ["EP", "EPEDGE", "ONLYEP", "PIN", "CASTLE", "PROMO", "CHK"],
@@ -167,7 +167,53 @@ FAMS_FOR = {
     "C16": ["PIN", "CHK", "CASTLE"],
     "C04": ["EP", "CASTLE", "PROMO"],
     "C05": ["EP", "CASTLE", "PROMO"],
+    "C09": ["AMBIG", "PIN", "PROMO", "EP", "CASTLE"],
+    "C10": ["EP", "EPEDGE", "CASTLE", "PROMO"],
+    "C11": ["RAW", "EPEDGE", "CASTLE"],
+    "C18": ["EP", "ONLYEP", "CASTLE", "MAT", "PIN"],
+    "C19": ["CHK", "AMBIG"],
 }
+# families whose positions are expensive per event (SAN: ~150 texts, UCI: 20 481 strings): thinner samples
+FAM_MULT = {"C04": 5, "C05": 5, "C09": 6, "C10": 4, "C18": 2}
+
+
+def mc_notation(run, tier):
+    """Engine MC on the notation layer: SanOf injective, SanResolve(SanDescribe(SanOf(m))) = {m}, UCI and FEN
+    round trips, on the corpus (quick) and all successors (thorough)."""
+    r = run_tlc("MC_Notation", "MC_Notation.cfg", env={"DEPTH": 0 if tier == "quick" else 1}, workers=8, xmx="6g",
+                timeout=3000, tag=f"mcnot-{run.prop}", gc_threads=4)
+    if "Model checking completed. No error has been found" not in r["out"]:
+        run.tool_error("MC_Notation: the notation layer is not self-consistent (a defect of the model):\n" + r["out"][-2500:])
+        return
+    run.states += r["distinct"]
+    run.transitions += r["generated"]
+    run.extra["mc_notation"] = {"distinct_states": r["distinct"], "invariants": ["Inv_SanInjective", "Inv_SanResolves",
+                                "Inv_UciRoundTrip", "Inv_FenRoundTrip", "Inv_Valid"]}
+
+
+def mc_famimpl(run, tier, seed, fams):
+    """Engine MC: refinement obligations (prefilter/pin logic, generator, has_legal_moves, make/unmake with
+    incremental hash and sets) on the structured families, at the design level."""
+    qi = 0 if tier == "quick" else 1
+    t0 = time.time()
+    def one(f):
+        stride = FAM_STRIDE[f][qi] * (4 if qi == 0 else 3)
+        r = run_tlc("MC_FamImpl", "MC_FamImpl.cfg", env={"FAM_" + f: 1, "STRIDE": stride, "SEED": seed, "EPFIX": 1},
+                    workers=max(2, NCPU // len(fams)), xmx="4g", timeout=3400, tag=f"famimpl-{run.prop}-{f}", gc_threads=2)
+        return f, stride, r
+    info = {}
+    with ThreadPoolExecutor(max_workers=len(fams)) as ex:
+        for f, stride, r in ex.map(one, fams):
+            if "Model checking completed. No error has been found" not in r["out"]:
+                run.tool_error(f"MC_FamImpl({f}): the implementation-shaped layer does not refine the reference layer "
+                               f"(to be triaged against the code):\n" + r["out"][-2500:])
+                continue
+            run.states += r["distinct"]
+            run.transitions += r["generated"]
+            info[f] = {"stride": stride, "distinct_states": r["distinct"]}
+    run.extra["mc_famimpl"] = {"families": info, "invariant": "Inv_FamRefines (Obl_Legal, Obl_Make, Obl_Undo)",
+                               "wall_s": round(time.time() - t0, 1)}
+    log(f"[mc] MC_FamImpl {info} in {time.time() - t0:.1f}s")
 
 
 def enumerate_family(run, fam, stride, seed, workers):
@@ -195,7 +241,7 @@ def families(run, prop, tier, seed, binary, ident_fn, classify_fn, payload_fn=No
     qi = 0 if tier == "quick" else 1
     wk = max(1, NCPU // max(1, len(fams)))
     # session properties replay ~35 make/unmake pairs per position: sample the families more thinly
-    mult = 5 if prop in ("C04", "C05") else 1
+    mult = FAM_MULT.get(prop, 1)
     stride = {f: (FAM_STRIDE[f][qi] * mult if FAM_STRIDE[f][qi] > 1 or mult == 1 else (3 if qi == 0 else 1)) for f in fams}
     with ThreadPoolExecutor(max_workers=len(fams)) as ex:
         lists = list(ex.map(lambda f: enumerate_family(run, f, stride[f], seed, wk), fams))
@@ -254,6 +300,8 @@ def plan_queries(prop, tier, seed):
     run.add_trace_results(res, ident_q(prop), classify_q(prop))
     corruption_test(run, prop, out, corrupt_q)
     families(run, prop, tier, seed, binary, ident_q(prop), classify_q(prop))
+    if prop in ("C01", "C06", "C07"):
+        mc_famimpl(run, tier, seed, ["EP", "EPEDGE", "ONLYEP", "PIN", "CASTLE", "CHK"])
     if len(run.nontrivial) < 2:
         run.tool_error("vacuous coverage: fewer than 2 non-trivial positions")
     return run.finish()
@@ -403,6 +451,7 @@ def plan_sessions(prop, tier, seed):
              cap=700 if tier == "quick" else 3000)
     # the model by itself (after the traces: 16 TLC workers would starve the validators)
     mc_impl(run, 1 if tier == "quick" else 2)
+    mc_famimpl(run, tier, seed, ["EP", "CASTLE", "PROMO", "PIN"])
     if len(run.nontrivial) < 2:
         run.tool_error("vacuous coverage: fewer than 2 non-trivial cases")
     return run.finish()
@@ -831,6 +880,11 @@ def plan_generic(prop, tier, seed):
     if m:
         run.extra["max_semilegal_moves_found_by_search"] = int(m.group(1))
     corruption_generic(run, prop, out)
+    if prop in FAMS_FOR:
+        families(run, prop, tier, seed, binary, ident_generic(prop), Classifier(prop), chain_payload,
+                 cap=GENERIC[prop][2 + qi])
+    if prop in ("C08", "C09", "C10"):
+        mc_notation(run, tier)
     if prop in ("C13", "C14", "C17"):
         chain_behaviours(run, prop, tier, seed, binary)
         mc_chain(run, tier)
